@@ -1192,7 +1192,7 @@ class PDFCIDFont(PDFFont):
             widths2 = get_widths2(list_value(spec.get("W2", [])))
             self.disps = {cid: (vx, vy) for (cid, (_, (vx, vy))) in widths2.items()}
             dw2 = [resolve1(v) for v in list_value(spec.get("DW2", [880, -1000]))]
-            if len(dw2) != 2 or not all(isinstance(v, (int, float)) for v in dw2):
+            if len(dw2) != 2 or not all(safe_float(v) is not None for v in dw2):
                 log.warning("Invalid /DW2 in CID font, using the default: %r", dw2)
                 dw2 = [880, -1000]
             (vy, w) = dw2
